@@ -27,11 +27,13 @@ def mk_tree(pts, k):
                 z=np.array([p[2] for p in pts], dtype=np.float32), r=np.array([0.5 + i for i in range(n)], dtype=np.float32))
 
 
-def mk_op(o, wind, use_cls):
+def mk_op(o, wind, use_cls, vid=0):
     """returns a callable tree -> tree"""
     from swcgeom.transforms import Translate, TranslateOrigin, Scale, Rotate, RotateX, RotateY, RotateZ, AffineTransform
     from swcgeom.utils import translate3d, scale3d, rotate3d_z
     op, c = o["op"], o.get("centre", "origin")
+    if c == "root" and vid % 3 == 1:
+        c = "soma"                      # the documented alias of "root"
     if op == "translate":
         v = [fr(x) for x in o["v"]]
         return (lambda t: Translate.transform(t, *v, center=c)) if use_cls else Translate(*v, center=c)
@@ -49,6 +51,8 @@ def mk_op(o, wind, use_cls):
         return (lambda t: Rotate.transform(t, n, th, center=c)) if use_cls else Rotate(n, th, center=c)
     if op == "affine":
         tm = translate3d(*[fr(x) for x in o["v"]]).dot(rotate3d_z(th)).dot(scale3d(*[fr(x) for x in o["w"]]))
+        if vid % 2:
+            tm = np.asarray(tm, dtype=np.float64) * [2.0, 0.5, -4.0][(vid // 2) % 3]      # a homogeneous matrix denotes the same map when all of it is scaled
         return AffineTransform(tm, center=c)
     raise ValueError(op)
 
@@ -75,8 +79,8 @@ def execute(c):
             raise ValueError("builder returned shape %s" % (m.shape,))
         return {"m": [[int(round(float(v) * 1e6)) for v in row] for row in m]}
     use_cls = lib.vid(c) % 4 == 3 and len(c["trees"]) == 1
-    f = mk_op(o, wind, use_cls)
-    g = mk_op(c["oi"], -wind, False) if c["kind"] == "inverse" else None
+    f = mk_op(o, wind, use_cls, lib.vid(c))
+    g = mk_op(c["oi"], -wind, False, lib.vid(c) // 3) if c["kind"] == "inverse" else None
     res, kept = [], 1
     for j, pts in enumerate(c["trees"]):
         t = mk_tree(pts, j)
